@@ -7,7 +7,7 @@ description in the direct 4-bit form, 1 or 4 streams through the byte-level bit 
 bytes (rt=ok) and on the library's bytes (dec).
 The code LENGTHS are the compressor's heuristic: they travel from C to the model as weights.  When the library's tree description is
 in the direct form the whole section is compared byte for byte against the model's own direct form; when the library preferred
-FSE-compressed weights (HUF_compressWeights, not modelled on the writer side) its tree-description bytes are handed to the model, so
+FSE-compressed weights (HUF_compressWeights; modelled by LitEnc.fseWeights and tied by tools/ent_huf.py `whdr`, not used by this tie) its tree-description bytes are handed to the model, so
 the header packing and the streams are still compared, and the decoder model must read the library's section back.
 """
 import os, sys
